@@ -211,7 +211,7 @@ inductive St where
 inductive Msg where
   | item (r : ReqFacts) (ctx : EncCtx)
   | error (status : Nat)
-  | upgrade (r : ReqFacts)
+  | upgrade (r : ReqFacts) (ctx : EncCtx)
   deriving DecidableEq, Repr, Inhabited
 
 inductive PDec where
@@ -525,10 +525,10 @@ def applyDecoded (cfg : Cfg) (s0 : DState) : Decoded → DState × List Out
   | .item r =>
     if r.body == .stream && cfg.upgrade then
       -- `MessageType::Stream if this.flow.upgrade.is_some()` (l.941): queued for the upgrade
-      -- service, decode loop left; the codec keeps the context of *this* request (nothing is
-      -- saved or restored for an `Upgrade` message)
+      -- service together with its own context, decode loop left; the codec keeps (gets back)
+      -- the context of the response that is still to be encoded
       ({ s0 with pdec := some .stream, headTimer := Timer.inactive, drainable := false,
-                 ctx := newCtx cfg s0.ctx r, messages := s0.messages ++ [Msg.upgrade r], inDecode := false }, [])
+                 messages := s0.messages ++ [Msg.upgrade r (newCtx cfg s0.ctx r)], inDecode := false }, [])
     else
     let s2 := acceptItem s0 r
     if s2.st == .none then startRequest { s2 with ctx := newCtx cfg s0.ctx r } r
@@ -566,8 +566,8 @@ def applyPop (cfg : Cfg) (s : DState) : DState × List Out :=
         { status := status, connType := none, chunked := true, headers := [] } (.sized 0) true
     -- l.608 + `InnerDispatcher::upgrade` (l.1278): io, codec, read buffer **and write buffer** go to
     -- the upgrade service; nothing that was encoded so far is lost
-    | .upgrade r :: rest =>
-      ({ s with messages := rest, st := .upgrade r, mode := .upgraded }, [.begin r.rid, .upgrade r.rid])
+    | .upgrade r ctx :: rest =>
+      ({ s with messages := rest, ctx := ctx, st := .upgrade r, mode := .upgraded }, [.begin r.rid, .upgrade r.rid])
     | [] =>
       ({ s with flags := { s.flags with keepAlive := s.payload.isNone && s.ctx.connType == .keepAlive } }, [])
 
